@@ -344,6 +344,23 @@ fn c04_cands(rng: &mut Rng, _pre: &Snap, _t: Tier) -> Vec<Cand> {
         let s: String = (0..n).map(|_| if rng.below(3) == 0 { *rng.pick(&DRAW_POOL) } else { (b'a' + rng.below(26) as u8) as char }).collect();
         draw_both(&mut v, s);
     }
+    // the character set in use changed by a shuffle of shifts and designations right before the
+    // draw (any order: designate the slot in use, the slot not in use, shift twice, ...): what is
+    // drawn goes through the table that is in use NOW
+    for _ in 0..4 {
+        let mut ops: Vec<Op> = Vec::new();
+        for _ in 0..1 + rng.below(4) {
+            ops.push(Op::Api(match rng.below(4) {
+                0 => Call::ShiftOut,
+                1 => Call::ShiftIn,
+                _ => Call::DefineCharset((*rng.pick(&["B", "0", "U", "V"])).into(), (*rng.pick(&["(", ")"])).into()),
+            }));
+        }
+        let n = 1 + rng.usize(4);
+        let s: String = (0..n).map(|_| *rng.pick(&['q', '~', '_', 'x', 'a', '\u{e9}', '\u{fe}', '\u{2502}', '`'])).collect();
+        ops.push(Op::Api(Call::Draw(s)));
+        v.push(Cand { ops });
+    }
     v
 }
 
